@@ -1271,6 +1271,7 @@ static int
 reply_parse(struct evdns_base *base, u8 *packet, int length)
 {
 	int j = 0, k = 0;  /* index into packet */
+	int rdata_end;
 	u16 t_;	 /* used by the macros */
 	u32 t32_;  /* used by the macros */
 	char tmp_name[256], cmp_name[256]; /* used by the macros */
@@ -1401,16 +1402,25 @@ reply_parse(struct evdns_base *base, u8 *packet, int length)
 			if (req->request_type != TYPE_PTR) {
 				j += datalength; continue;
 			}
+			rdata_end = j + datalength;
 			if (name_parse(packet, length, &j, reply.data.ptr_name,
 						   buf_size)<0)
+				goto err;
+			/* the name must fill the RDATA exactly */
+			if (j != rdata_end)
 				goto err;
 			ttl_r = MIN(ttl_r, ttl);
 			reply.have_answer = 1;
 			break;
 		} else if (type == TYPE_CNAME) {
 			char cname[EVDNS_NAME_MAX];
+			rdata_end = j + datalength;
 			if (name_parse(packet, length, &j, cname,
 				sizeof(cname))<0)
+				goto err;
+			/* the name must fill the RDATA exactly: the next record
+			 * starts where RDLENGTH says, not where the name ended */
+			if (j != rdata_end)
 				goto err;
 			if (req->need_cname) {
 				if (reply.cname)
